@@ -68,6 +68,9 @@ where
                 options
                     .db
                     .remove_region_if_exists(&vec_region_name_with::<I>(options.name))?;
+                options
+                    .db
+                    .remove_region_if_exists(&Self::holes_region_name_with(options.name))?;
                 Self::import_with(options, format)
             }
             _ => res,
